@@ -642,7 +642,62 @@ def h19b(c):
         c.cover("batch")
 
 
+def h19e(c, K=3):
+    """live mode schedules (C11 world): a replacement bet keeps the customer reference of the bet it replaces - two bets, one reference - and
+    its stream update may arrive before the replace response: what the stream says about a bet is only ever stored on the order with that bet id"""
+    from .c11 import h11a
+    from .c06 import _Only
+    h11a(_Only(c, ("attributed-to-own-bet", "exactly-one-local-order", "no-exception")), K=K)
+
+
+def h19s(c):
+    """invalid separators are rejected on every path that sets one: the Trade.create_order / create_betdaq_order keyword, the order constructor
+    and the `sep` setter agree with each other for each candidate (length 0, 1, 2; valid and invalid characters)"""
+    from flumine.order.order import BetdaqOrder
+    from flumine.order.ordertype import BetdaqLimitOrder
+    sep = c.choose("separator", ["", "-", "~", "a", "Z", "0", ":", " ", "_", "é", "--", "ab", "\\", "\n", "."])
+    kind = c.choose("order_type", ["LIMIT", "LIMIT_ON_CLOSE", "MARKET_ON_CLOSE", "BETDAQ"])
+    strategy = BaseStrategy(market_filter={}, name="s")
+
+    def ot():
+        return {"LIMIT": lambda: cm.LimitOrder(2.0, 2.0), "LIMIT_ON_CLOSE": lambda: cm.LimitOnCloseOrder(10.0, 2.0), "MARKET_ON_CLOSE": lambda: cm.MarketOnCloseOrder(10.0),
+                "BETDAQ": lambda: BetdaqLimitOrder(2.0, 5.0, 1, 0, 0)}[kind]()
+
+    def attempt(f):
+        try:
+            f()
+            return "accepted"
+        except ValueError:
+            return "rejected"
+
+    def via_trade():
+        tr = Trade(cm.MID, 1, 0, strategy)
+        return tr.create_betdaq_order("BACK", ot(), BetdaqOrder, sep=sep) if kind == "BETDAQ" else tr.create_order("BACK", ot(), sep=sep)
+
+    def via_constructor():
+        tr = Trade(cm.MID, 1, 0, strategy)
+        cls = BetdaqOrder if kind == "BETDAQ" else BetfairOrder
+        return cls(trade=tr, side="BACK", order_type=ot(), sep=sep)
+
+    def via_setter():
+        tr = Trade(cm.MID, 1, 0, strategy)
+        o = tr.create_betdaq_order("BACK", ot(), BetdaqOrder) if kind == "BETDAQ" else tr.create_order("BACK", ot())
+        o.sep = sep
+
+    got = {"trade-keyword": attempt(via_trade), "constructor": attempt(via_constructor), "setter": attempt(via_setter)}
+    c.ob("all-paths-agree-on-the-separator", len(set(got.values())) == 1, **got)
+    if len(sep) != 1 and kind != "BETDAQ":  # (Betdaq orders carry a numeric reference, the separator is not part of it and not validated)
+        c.ob("separator-of-length-other-than-1-rejected", set(got.values()) == {"rejected"}, **got)
+        c.cover("invalid")
+    if sep in ("-", "~", ":", "a", "Z", "0") or kind == "BETDAQ":
+        c.ob("valid-separator-accepted", set(got.values()) == {"accepted"}, **got)
+        c.cover("valid")
+
+
 HARNESSES = [
+    Harness("H19e", h19e, quick=dict(K=3), thorough=dict(K=4), pattern="P3/P5 schedule as a variable", requires=["run", "snapshot", "replaced-bet"], selfcheck=False,
+            max_paths=(400000, 5000000), wall_s=(300, 3000)),
+    Harness("H19s", h19s, pattern="exhaustive choice product (three creation paths against each other)", requires=["valid", "invalid"], selfcheck=False),
     Harness("H19u", h19u, quick=dict(n=40), thorough=dict(n=400), pattern="environment stub (clock) + exhaustive regime product", requires=["unique"], selfcheck=False),
     Harness("H19b", h19b, pattern="exhaustive choice product through the real Betdaq polling path", requires=["batch"], selfcheck=False),
     Harness("H19d", h19d, pattern="exhaustive choice product through the real adoption path", requires=["round-trip"], selfcheck=False),
